@@ -23,3 +23,10 @@ package describegroups
 //@   layout v0..v3 MemberID string, ClientID string, ClientHost string, MemberMetadata bytes, MemberAssignment bytes
 //@   layout v4 MemberID string, GroupInstanceID string?, ClientID string, ClientHost string, MemberMetadata bytes, MemberAssignment bytes
 //@   layout v5 _ struct{} @-1, MemberID string, GroupInstanceID string?, ClientID string, ClientHost string, MemberMetadata bytes, MemberAssignment bytes
+
+//@ property C12
+// Routing (C12): which of the protocol message interfaces the request satisfies decides where the Transport sends it
+// (connPool.sendRequest tests BrokerMessage, then GroupMessage, then TransactionalMessage).
+//@ wire Request
+//@   implements protocol.GroupMessage
+//@   notimplements protocol.BrokerMessage
